@@ -245,7 +245,7 @@ class dhcp(packet_base):
         ofs = 0;
         l = len(barr)
         while ofs < l:
-            opt = ord(barr[ofs])
+            opt = barr[ofs]
             if opt == dhcp.END_OPT:
                 return
             ofs += 1
@@ -254,7 +254,7 @@ class dhcp(packet_base):
             if ofs >= l:
                 self.warn('DHCP option ofs extends past segment')
                 return
-            opt_len = ord(barr[ofs])
+            opt_len = barr[ofs]
             ofs += 1         # Account for the length octet
             if ofs + opt_len > l:
                 return False
